@@ -8,6 +8,7 @@ from .translate import scales as tr
 
 PROP = "C19"
 MODULES = ["PdsVerif.Props.C19"]
+MODEL_MODULES = ["PdsVerif.Model.ScalesDrv"]
 REQUIRED = [
     "PdsVerif.C19." + n
     for n in """linear_left_inv linear_right_inv linear_h2s_strictMono linear_s2h_strictMono
